@@ -24,6 +24,10 @@
 (* reader (inline: the reader waits for it; asynchronous: it runs on, keeping the range lock); one external evictor   *)
 (* EV (explicit evict(name) or a timer sweep); a writer that finds the pool full runs a sweep itself (forceRecycle)   *)
 (* while it still holds the store range lock.  Reopen = a new pool instance over the same media directory at rest.    *)
+(* PunchEnd = CachedFile::fallocate(offset, -1) at rest.  As written (PunchGuard = FALSE) it truncates the media file   *)
+(* TO the offset even when that extends it; a reopened pool then believes the larger size (finding C17a: TLC shows     *)
+(* ReadsEqualSource / NeverBeyondSize violated in MC_Cache_kf_punchend.cfg, the real cache does the same in            *)
+(* h_cache --prim punchend); with PunchGuard = TRUE (proposed repair) MC_Cache_t_punchend.cfg holds.                   *)
 EXTENDS Naturals, Integers, Sequences, FiniteSets, TLC
 CONSTANTS NF, SZ, BLK, RU, Readers, ReadSet, NReads, MaxEv, Async, MaxRefilling, Faults, Fiemap, CapFull, ReopenMax, PunchMax, PunchGuard, Bug
 \* PunchMax: evict-to-end calls at rest (CachedFile::fallocate(offset, -1)); PunchGuard = FALSE models FileCacheStore::evict as written
